@@ -253,6 +253,29 @@ func dec(doc string, mk func() interface{}, f func(in []byte, dst interface{}) e
 	return r
 }
 
+// decPartial: as dec, but the (partially filled) destination of a failing call is kept as a decoded value too
+func decPartial(doc string, mk func() interface{}, f func(in []byte, dst interface{}) error) result {
+	var dst interface{}
+	r := dec(doc, func() interface{} { dst = mk(); return dst }, f)
+	if r.vals == nil && r.digest != "panic" {
+		r.vals = []interface{}{dst}
+	}
+	return r
+}
+
+func pathParts(doc string) result {
+	var parts [][]byte
+	var err error
+	if rec := wk.Guard(func() { parts, err = hPath.Extract([]byte(doc)) }); rec != nil {
+		return result{digest: "panic"}
+	}
+	r := result{digest: dig(bytes.Join(parts, []byte("|")), err)}
+	if err == nil && len(parts) > 0 {
+		r.out = parts[0]
+	}
+	return r
+}
+
 var Kinds = map[string]func() result{
 	"marshal:small": func() result { return enc(func() ([]byte, error) { return gojson.Marshal(smallValue()) }) },
 	"marshal:large": func() result { return enc(func() ([]byte, error) { return gojson.Marshal(largeValue()) }) },
@@ -654,6 +677,21 @@ var Kinds = map[string]func() result{
 			parts, err := hPath.Extract([]byte(`{"a":{"b":[10,{"x":`))
 			return bytes.Join(parts, []byte("|")), err
 		})
+	},
+	// the slices Extract returns are the caller's: a later call on the same Path (another document of the same length) must not
+	// change them.  `out` is the returned part itself, not a copy.
+	"path:parts-a": func() result {
+		return pathParts(`{"a":{"b":[10,{"x":"first-doc"},30]}}`)
+	},
+	"path:parts-b": func() result {
+		return pathParts(`{"a":{"b":[77,{"y":"second-dc"},99]}}`)
+	},
+	// a call that FAILS after it has stored strings: the destination is the caller's and keeps what was stored
+	"fail:um-strings": func() result {
+		return decPartial(`{"b":"first-document-name","d":{"k":"first-document-alias"},"e":{"b":"nested-name"},"a":x}`, func() interface{} { return new(small) }, gojson.Unmarshal)
+	},
+	"fail:um-strings-short": func() result {
+		return decPartial(`{"b":"2nd-name","d":{"k":"2nd-alias"},"a":"str"}`, func() interface{} { return new(small) }, gojson.Unmarshal)
 	},
 	"path:rec": func() result {
 		return enc(func() ([]byte, error) {
